@@ -95,7 +95,11 @@ def names_by_position():
 def addr_of(host, port, inst):
     if port is None:
         return host
-    return "%s:%d" % (host, port) if inst is None else "%s:%d:%s" % (host, port, inst)
+    h = "[%s]" % host if ":" in host else host         # an IPv6 server is written in brackets (carbon: parseDestination)
+    return "%s:%d" % (h, port) if inst is None else "%s:%d:%s" % (h, port, inst)
+
+
+V6 = ("::1", "::ffff:127.0.0.2", "::ffff:127.0.0.11")      # loopback and IPv4-mapped loopback: dials are refused at once
 
 
 LOOP = ("127.0.0.1", "127.0.0.11", "127.0.0.2", "127.1.2.3", "127.0.0.12")
@@ -123,6 +127,9 @@ def gen_universe(rng, engineered):
              "graphite.example.com", "127.0.0.12"]
     rng.shuffle(hosts)
     hosts = hosts[:rng.randint(1, min(4, n))]
+    if rng.random() < 0.3:
+        # IPv6 servers: carbon's (server, instance) pair has the address without brackets and port
+        hosts[rng.randrange(len(hosts)):] = rng.sample(V6, rng.randint(1, 2))
     if not any(h in LOOP for h in hosts):
         hosts[rng.randrange(len(hosts))] = rng.choice(LOOP)
     nodes, seen = [], set()
@@ -133,6 +140,8 @@ def gen_universe(rng, engineered):
         host = rng.choice(hosts)
         numeric = host[0].isdigit() and host.startswith("127.")
         form = rng.choice(["bare", "port", "inst", "inst"]) if numeric else "bare"
+        if host in V6:
+            form = rng.choice(["port", "inst", "inst"])
         port = None if form == "bare" else rng.choice([1, 2, 3, 7, 9])
         inst = None
         if form == "inst":
